@@ -85,6 +85,11 @@ var templates = []tmpl{
 	{name: "augment-through-an-implicit-case-brings-a-choice", augment: true, clean: true, files: []string{
 		`module m { ` + hdr("m") + ` container c { choice ch { container x { leaf l { type string; } } } %PAD } }`,
 		`module b { ` + hdr("b") + ` import m { prefix m; } augment /m:c/m:ch/m:x/m:x { choice inner { leaf p { type string; } container q { choice deeper { leaf-list r { type string; } } } } leaf plain { type string; } } }`}},
+	{name: "chain-of-augments-behind-an-implicit-case", augment: true, clean: true, present: [][]string{{"c", "ch", "x", "x", "g1", "g2", "deep"}, {"c", "ch", "x", "x", "g1", "l1"}}, files: []string{
+		`module m { ` + hdr("m") + ` container c { choice ch { container x { } } %PAD } }`,
+		`module %N1 { ` + hdr("%N1") + ` import m { prefix m; } augment /m:c/m:ch/m:x/m:x { container g1 { leaf l1 { type string; } } } }`,
+		`module %N2 { ` + hdr("%N2") + ` import m { prefix m; } import %N1 { prefix p1; } augment /m:c/m:ch/m:x/m:x/p1:g1 { container g2 { } } }`,
+		`module %N3 { ` + hdr("%N3") + ` import m { prefix m; } import %N1 { prefix p1; } import %N2 { prefix p2; } augment /m:c/m:ch/m:x/m:x/p1:g1/p2:g2 { leaf deep { type string; } } }`}},
 	{name: "augment-path-leaves-out-an-explicit-case", augment: true, files: []string{
 		`module m { ` + hdr("m") + ` container top { choice ch { case c1 { container cont { leaf in { type string; } } } case c2 { leaf other { type string; } } } %PAD } rpc r { input { choice how { case by-name { container sel { leaf n { type string; } } } } } } }`,
 		`module b { ` + hdr("b") + ` import m { prefix m; } augment %NOCASE { leaf bad { type string; } } }`}},
@@ -152,6 +157,7 @@ func Run(j *job.Job, s *job.Sink) {
 		order := r.Perm(len(t.files))
 		io := []string{"input", "output"}[r.Intn(2)]
 		digit := fmt.Sprint(r.Intn(8))
+		names3 := [][]string{{"a", "b", "d"}, {"a", "d", "b"}, {"b", "a", "d"}, {"b", "d", "a"}, {"d", "a", "b"}, {"d", "b", "a"}}[r.Intn(6)]
 		for _, i := range order {
 			txt := t.files[i]
 			txt = strings.ReplaceAll(txt, "%PAD", pads[r.Intn(len(pads))])
@@ -161,6 +167,9 @@ func Run(j *job.Job, s *job.Sink) {
 			txt = strings.ReplaceAll(txt, "%NOCASE", []string{"/m:top/m:ch/m:cont", "/m:r/m:input/m:how/m:sel", "/m:top/m:ch/m:other", "/m:top/m:ch/m:cont/m:in/.."}[r.Intn(4)])
 			txt = strings.ReplaceAll(txt, "%OPPATH", []string{"r", "c/m:a"}[r.Intn(2)])
 			txt = strings.ReplaceAll(txt, "%SELFPATH", []string{"c", ".", "c/x", "y", "./c", "c/../c"}[r.Intn(6)])
+			txt = strings.ReplaceAll(txt, "%N1", names3[0])
+			txt = strings.ReplaceAll(txt, "%N2", names3[1])
+			txt = strings.ReplaceAll(txt, "%N3", names3[2])
 			txt = strings.ReplaceAll(txt, "%GONE", []string{"/m:top/m:box", "/m:top"}[r.Intn(2)])
 			txt = strings.ReplaceAll(txt, "%LEAFY", []string{"lf", "ll", "ax", "ad"}[r.Intn(4)])
 			txt = strings.ReplaceAll(txt, "%EMPTYBODY", []string{"uses nothing;", "description \"nothing\";", "when \"../m:lf\";", "uses nothing; reference \"r\";", ""}[r.Intn(5)])
